@@ -21,10 +21,11 @@ INTS = ["0", "1", "-1", "+3", "42", "007", "123456789012"]
 DECS = ["1.0", "-2.5", "3e4", "1.5e-3", "+0.1", "10.0"]
 BOOLS = ["true", "false", "TRUE", "False"]
 GUIDS = ["01234567-89ab-cdef-0123-456789abcdef", "01234567-89AB-CDEF-0123-456789ABCDEF"]
-DATES = ["2019-01-01", "2020-12-31"]
+# the last two match the DATE regex but are no calendar dates
+DATES = ["2019-01-01", "2020-12-31", "2019-02-31", "2019-04-31"]
 TIMES = ["14:00:00", "23:59:59.123", "08:30"]
 DATETIMES = ["2019-01-01T14:00:00Z", "2020-02-29T23:59:59+01:00", "2019-01-01T14:00",
-             "2019-01-01T14:00:00.5-05:30"]
+             "2019-01-01T14:00:00.5-05:30", "2019-02-30T10:00:00Z", "2021-02-29T23:59:59Z"]
 DURATIONS = ["duration'P1D'", "duration'PT1H30M'", "duration'-P1Y2M3DT4H5M6.7S'",
              "Duration'P2D'"]
 GEOS = ["geography'POINT(1 2)'", "geography'SRID=0;Point(142.1 64.1)'"]
@@ -309,6 +310,8 @@ FIXED = [
     "author/address/city/name eq 'x'",
     "publisher/address/city eq 'y' and owner/parent/parent/parent/name ne null",
     "post/author/address/city/name eq author/address/city",
+    "d eq 2019-02-31 or d eq 2019-02-31",
+    "created_at lt 2019-02-30T10:00:00Z",
 ]
 
 FIXED_BAD = [
